@@ -25,7 +25,8 @@ def parse(log):
 logs = [parse(l) for l in ("/verif/seeded/_logs/eval.log", "/verif/seeded/_logs/eval_frozen.log",
                             "/verif/seeded/_logs/eval_live.log", "/verif/seeded/_logs/eval_final.log",
                             "/verif/seeded/_logs/eval_extra.log", "/verif/seeded/_logs/eval_r3.log",
-                            "/verif/seeded/_logs/eval_extra2.log", "/verif/seeded/_logs/eval_r4.log",
+                            "/verif/seeded/_logs/eval_extra2.log", "/verif/seeded/_logs/eval_r4_first.log",
+                            "/verif/seeded/_logs/eval_r4.log",
                             # complete re-evaluation against the final machinery and /repo HEAD
                             "/verif/seeded/_logs/eval_final2a.log", "/verif/seeded/_logs/eval_final2b.log",
                             "/verif/seeded/_logs/eval_final3.log")]
